@@ -1,6 +1,7 @@
 import B6.Lemmas.VM
 import B6.Lemmas.VMShape
 import B6.Lemmas.VMLambda
+import B6.Lemmas.VMLayoutAll
 /-!
 C21 — the VM evaluates programs as the language defines.
 
@@ -12,14 +13,13 @@ stack machine of api/vm.go with the `fixes/C21-*.patch` repairs).  Both are tied
   **equals** the interpreter's — same value, same error, in particular never a panic.  Lambda-free
   programs still use function values: global functions, partial applications at any depth
   (trailing-argument binding), calls of calls, higher-order builtins calling back into the VM.
-* `vm_lambda_partial` (proved, all fuel, all programs of the syntactic fragment `Expr.regSafe` whose
-  compiled code passes the decidable layout validation `VM.layoutOK`): the VM's observable outcome is
-  the interpreter's.  `regSafe`: no lambda uses a parameter of an enclosing lambda, and no lambda reads
+* `vm_lambda_partial` (proved, all fuel, all programs of the syntactic fragment `Expr.regSafe`): the
+  VM's observable outcome is the interpreter's.  (`layoutOK_all`: the layout validation `VM.layoutOK`
+  the simulation runs over holds for every program.)  `regSafe`: no lambda uses a parameter of an enclosing lambda, and no lambda reads
   an own parameter after a call that may run lambda code (lambda literal, computed function,
   `call1/call2/apply/force`).  Lambdas may be nested, shadow, be passed to higher-order builtins and to
   other lambdas, be returned and be partially applied.  The complement of `regSafe` is exactly the
-  driver's input class of the finding `closure-registers`; `layoutOK` is evaluated by the driver on
-  every program (it has never failed).  Both restrictions of `regSafe` are forced:
+  driver's input class of the finding `closure-registers`.  Both restrictions of `regSafe` are forced:
   `closure_stale_register` (enclosing parameter) and `reentrant_stale_register` (a lambda that receives
   itself: no enclosing parameter is used, yet the inner activation overwrites the outer one's register).
 * `vm_correct_statement`: the full property (all programs, outcomes compared as a caller observes
@@ -115,13 +115,9 @@ def vm_lambda_partial_statement : Prop :=
   ∀ (fuel : Nat) (e : Expr), e.hasOpenLambda = false →
     (VM.run fuel e).map Val.obs = (interp fuel e).map Val.obs
 
-/-- **vm_lambda_partial.** For every fuel and every program in the fragment `Expr.regSafe` whose
-compiled instruction array passes the layout validation `VM.layoutOK` (a decidable check of the
-compiler's output, evaluated by the driver on every program of every run), the VM's outcome is the
-reference interpreter's: the same error, or values with the same observation (data structurally,
-functions by arity — the VM's `*lambdaCall` and the interpreter's closure are different objects).
-In particular no panic. -/
-theorem vm_lambda_partial (fuel : Nat) (e : Expr) (hs : e.regSafe = true) (hl : layoutOK e = true) :
+/-- The simulation, over a compiled array whose layout `VM.layoutOK` has validated (`layoutOK_all`
+below shows that is every program). -/
+theorem vm_lambda_validated (fuel : Nat) (e : Expr) (hs : e.regSafe = true) (hl : layoutOK e = true) :
     (VM.run fuel e).map Val.obs = (interp fuel e).map Val.obs := by
   unfold layoutOK at hl
   unfold VM.run interp
@@ -166,6 +162,26 @@ theorem vm_lambda_partial (fuel : Nat) (e : Expr) (hs : e.regSafe = true) (hl : 
             obtain ⟨v', regs', hv, _, hex⟩ := s2 v hev
             rw [hex]
             simp [execList, Except.map, VR_obs _ _ hv]
+
+/-- **layoutOK_all.** For every program: `compilation.Compile` succeeds exactly when the program is
+statically well-formed (bound symbols, no literal in function position, at most `MaxArgs` lambda
+parameters) — otherwise it returns an `error`, it never panics — and the array it produces has the
+layout of `VM.matchExpr`: `PushValue 0`, the main expression, `Return`, and every lambda reference
+points at a target `Store r_{k-1} … Store r_0 ; body ; Discard ; Return` with distinct registers below
+`MaxArgs` and the body compiled under the extended frame (the targets-queue argument:
+`Lemmas/VMLayout`, `VMLayoutAll`). -/
+theorem layoutOK_all (e : Expr) : layoutOK e = true := B6.Lemmas.VMLayout.layoutOK_all e
+
+theorem layoutOK_of_wellFormed (e : Expr) (_ : wellFormed e = true) : layoutOK e = true := layoutOK_all e
+
+/-- **vm_lambda_partial.** For every fuel and every program in the syntactic fragment `Expr.regSafe`
+the VM's outcome is the reference interpreter's: the same error, or values with the same observation
+(data structurally, functions by arity — the VM's `*lambdaCall` and the interpreter's closure are
+different objects).  In particular no panic.  The only hypothesis is `regSafe`, whose complement is the
+input class of the finding `closure-registers`. -/
+theorem vm_lambda_partial (fuel : Nat) (e : Expr) (hs : e.regSafe = true) :
+    (VM.run fuel e).map Val.obs = (interp fuel e).map Val.obs :=
+  vm_lambda_validated fuel e hs (layoutOK_all e)
 
 private def ii (n : Int) : Expr := .lit (.int n)
 private def cc (f : Expr) (as : List Expr) : Expr := .call f as false
